@@ -411,5 +411,9 @@ func (ss *StyledString) Encode() string {
 	if cursor != empty {
 		bldr.WriteString(sgrReset)
 	}
+	if cursor.Hyperlink != "" {
+		// SGR does not end a hyperlink
+		bldr.WriteString(tparm(osc8, "", ""))
+	}
 	return bldr.String()
 }
